@@ -4,6 +4,7 @@ import (
 	"fmt"
 	"go/token"
 	"go/types"
+	"morlockverif/checker/internal/core"
 	"sort"
 	"strings"
 
@@ -210,7 +211,7 @@ func generatorMoveFieldValues(c *Ctx, field string) (map[int64]bool, bool) {
 		if fs.Named == nil || moveT == nil || fs.Named.Obj() != moveT.Obj() || fs.Field != field || fs.Whole {
 			continue
 		}
-		if fs.Fn.Name() != "emitMove" && fs.Fn.Name() != "emitPromo" {
+		if fs.Fn != c.find("pkg/board", "Position", "emitMove") && fs.Fn != c.find("pkg/board", "Position", "emitPromo") {
 			continue
 		}
 		n++
@@ -283,16 +284,16 @@ func pieceValuesExt(c *Ctx, v ssa.Value, seen map[ssa.Value]bool) (map[int64]boo
 	case *ssa.UnOp:
 		if x.Op == token.MUL {
 			if fa, ok := x.X.(*ssa.FieldAddr); ok {
-				if n := namedOf(fa.X.Type()); n != nil && n.Obj().Name() == "Move" {
+				if n := namedOf(fa.X.Type()); n != nil && core.ObjName(n.Obj()) == "Move" {
 					st := n.Underlying().(*types.Struct)
-					return generatorMoveFieldValues(c, st.Field(fa.Field).Name())
+					return generatorMoveFieldValues(c, core.FieldName(st.Field(fa.Field)))
 				}
 			}
 		}
 	case *ssa.Field:
-		if n := namedOf(x.X.Type()); n != nil && n.Obj().Name() == "Move" {
+		if n := namedOf(x.X.Type()); n != nil && core.ObjName(n.Obj()) == "Move" {
 			st := n.Underlying().(*types.Struct)
-			return generatorMoveFieldValues(c, st.Field(x.Field).Name())
+			return generatorMoveFieldValues(c, core.FieldName(st.Field(x.Field)))
 		}
 	}
 	return nil, false
@@ -301,7 +302,7 @@ func pieceValuesExt(c *Ctx, v ssa.Value, seen map[ssa.Value]bool) (map[int64]boo
 func c20Piece(c *Ctx) {
 	r := c.R
 	g := callGraph(c)
-	isCapture := c.P.Func("pkg/board", "Move", "IsCapture")
+	isCapture := c.find("pkg/board", "Move", "IsCapture")
 	for _, t := range [][3]string{{"pkg/board", "", "Attackboard"}, {"cmd/turochamp/turochamp", "", "pieceValue"}} {
 		fn := c.fn("R20-piece", t[0], t[1], t[2])
 		if fn == nil {
@@ -309,7 +310,7 @@ func c20Piece(c *Ctx) {
 		}
 		argIdx := -1
 		for i, p := range fn.Params {
-			if n := namedOf(p.Type()); n != nil && n.Obj().Name() == "Piece" {
+			if n := namedOf(p.Type()); n != nil && core.ObjName(n.Obj()) == "Piece" {
 				argIdx = i
 			}
 		}
@@ -568,8 +569,8 @@ func c20Subset(c *Ctx) {
 func c20Book(c *Ctx) {
 	r := c.R
 	nb := c.fn("R20-book", "pkg/engine", "", "NewBook")
-	posMove := c.P.Func("pkg/board", "Position", "Move")
-	equals := c.P.Func("pkg/board", "Move", "Equals")
+	posMove := c.find("pkg/board", "Position", "Move")
+	equals := c.find("pkg/board", "Move", "Equals")
 	if nb == nil || posMove == nil || equals == nil {
 		return
 	}
